@@ -148,11 +148,10 @@ impl vstd::std_specs::convert::FromSpecImpl<(String, u16)> for TargetAddress {
 
 //@ contract encode_address
     ensures
-        // [A] a representable address is written as exactly its attribute image
-        addr_repr(opt_ta_view(match addr { Some(a) => Some(*a), None => None })) ==>
-            final(buf)@ == old(buf)@ + addr_image(opt_ta_view(match addr { Some(a) => Some(*a), None => None })),
-        // [B] an address that cannot be represented must not be written (there is no error path: see known findings)
-        addr_repr(opt_ta_view(match addr { Some(a) => Some(*a), None => None })),
+        // refused (None, nothing usable written) exactly when the address cannot be represented ...
+        ret.is_some() <==> addr_repr(opt_ta_view(match addr { Some(a) => Some(*a), None => None })),
+        // ... otherwise exactly its attribute image is appended
+        ret.is_some() ==> final(buf)@ == old(buf)@ + addr_image(opt_ta_view(match addr { Some(a) => Some(*a), None => None })),
 //@ end
 
 //@ hint encode_address before `string_as_bytes(host)`
@@ -274,22 +273,23 @@ pub open spec fn head_total(b: Seq<u8>) -> Option<Option<nat>> {
         final(self).body@ == old(self).body@,
 //@ end
 
-//@ contract Frame::make_header
+//@ contract Frame::try_make_header
     ensures
-        // [A] representable frames get exactly the documented header
-        frame_repr(*self) ==> ret@ == header_image(self.session_id, addr_image(opt_ta_view(self.addr)), self.body@.len()),
-        // [B] a frame whose address or body length does not fit the header fields must not be encoded
-        frame_repr(*self),
+        // a frame whose address or body length does not fit the header fields is refused, never truncated
+        ret.is_some() <==> frame_repr(*self),
+        ret.is_some() ==> ret.unwrap()@ == header_image(self.session_id, addr_image(opt_ta_view(self.addr)), self.body@.len()),
 //@ end
 
 //@ contract Frame::write_to
     ensures
-        frame_repr(*self) && ret.is_ok() ==> {
+        ret.is_ok() ==> {
+            &&& frame_repr(*self)
             &&& final(output).written() == old(output).written() + frame_image(*self)
             &&& final(output).flushed_len() == final(output).written().len()
             &&& ret.unwrap() == frame_image(*self).len()
         },
-        frame_repr(*self),
+        // an unrepresentable frame is an error and nothing of it is written
+        !frame_repr(*self) ==> ret.is_err() && final(output).written() == old(output).written(),
 //@ end
 
 /// C10: what the stream writer emits is decoded by from_buffer to the same (session id, address, payload)
@@ -381,14 +381,15 @@ pub open spec fn complete_prefix(s: Seq<u8>) -> Option<nat> {
 
 //@ contract StreamFrameWriter::write
     ensures
-        // the frame goes out under the WRITER's session id, complete and flushed
-        frame_repr(frame) && ret.is_ok() ==> {
+        // the frame goes out under the WRITER's session id, complete and flushed -- or not at all
+        ret.is_ok() ==> {
             let f = Frame { addr: frame.addr, session_id: old(self).session_id, body: frame.body };
+            &&& frame_repr(frame)
             &&& final(self).inner.written() == old(self).inner.written() + frame_image(f)
             &&& final(self).inner.flushed_len() == final(self).inner.written().len()
         },
+        !frame_repr(frame) ==> ret.is_err() && final(self).inner.written() == old(self).inner.written(),
         final(self).session_id == old(self).session_id,
-        frame_repr(frame),
 //@ end
 
 //@ contract StreamFrameWriter::shutdown
